@@ -1,6 +1,7 @@
 (* DC18.v — dispatch entries of property C18 (projection to a planar CRS and back).
    corr = the wrapper model (Project.v), driven by the library's own point transform as oracle, reproduces the observed lists bit for bit;
-   prop = the checkers of the property accept the observed output; class = finding class (D17, D18, D19 of DESIGN 5.3). *)
+   prop = the checkers of the property accept the observed output; class = the one open finding class alt_fed_to_datum (D17 of
+   DESIGN 5.3; D18 and D19 are repaired in /repo: dbefda0, e07a6eb - their former witnesses are regression cases of the harness). *)
 From Coq Require Import ZArith String List Bool Floats QArith.
 From SID Require Import Base Wire F64 ExactRef Project.
 Import ListNotations.
@@ -38,10 +39,9 @@ Open Scope string_scope.
   Definition is_none {A} (o : option A) : bool := match o with None => true | Some _ => false end.
 
   (* per-point status of a numeric claim *)
-  Inductive pstat := POk | POver | PAlt | PBad.
+  Inductive pstat := POk | PAlt | PBad.
   Definition worst (l : list pstat) : pstat :=
     if existsb (fun s => match s with PBad => true | _ => false end) l then PBad
-    else if existsb (fun s => match s with POver => true | _ => false end) l then POver
     else if existsb (fun s => match s with PAlt => true | _ => false end) l then PAlt else POk.
   Fixpoint map2 {A B C} (f : A -> B -> C) (l : list A) (m : list B) : list C :=
     match l, m with a :: l', b :: m' => f a b :: map2 f l' m' | _, _ => [] end.
@@ -94,13 +94,12 @@ Open Scope string_scope.
       | [pl; VZ crs] =>
           match dec_list as_gpoint pl, obs_list as_ppoint obs with
           | Some ps, Some o =>
-              let m := to_projected tr ps crs in
+              let m := to_projected epsg_known tr ps crs in
               let corr := corr_res ppoint_eqb m o in
               let '(ol, oe) := o in
               if negb (epsg_known crs) then
-                (* an unknown EPSG code is reported as a conversion error *)
-                mkv corr oe (if corr && negb oe && match ps with [] => true | _ => false end then "unknown_epsg_empty_list" else "-")
-                    (res_val of_ppoint m)
+                (* an unknown EPSG code is reported as a conversion error - for every list, the empty one included *)
+                mkv corr oe "-" (res_val of_ppoint m)
               else
                 (* error exactly when the transform refuses a point; without error, element i is the transform of point i (order) with
                    point i's altitude bit for bit. The transform may be asked at the point's height (as the code does today) or at height 0
@@ -121,53 +120,63 @@ Open Scope string_scope.
       end.
 
     (* ---- ConvertProjectedPointListToPointList(projected points, crs) ---- *)
+    (* a projected point is refused when the transform refuses it or NewPoint refuses the transformed coordinates *)
+    Definition back_refusedb (crs : Z) (h : float -> float) (q : ppoint) : bool :=
+      match tr crs geo_crs (px q) (py q) (h (pz q)) with
+      | Some (x, y, _) => snd (new_point x y (pz q))
+      | None => true
+      end.
     Definition d_to_geographic (args : list val) (obs : val) : verdict :=
       match args with
       | [pl; VZ crs] =>
           match dec_list as_ppoint pl, obs_list as_gpoint obs with
           | Some qs, Some o =>
-              let m := to_geographic tr qs crs in
+              let m := to_geographic epsg_known tr qs crs in
               let corr := corr_res point_eqb m o in
               let '(ol, oe) := o in
-              if negb (epsg_known crs) then
-                mkv corr oe (if corr && negb oe && match qs with [] => true | _ => false end then "unknown_epsg_empty_list" else "-")
-                    (res_val of_gpoint m)
+              if negb (epsg_known crs) then mkv corr oe "-" (res_val of_gpoint m)
               else
+                (* error exactly when some point is refused (by the transform or by NewPoint); without error: element i is
+                   NewPoint(transform of point i) - order - and carries point i's altitude bit for bit *)
                 let order :=
-                  err_agrees oe (fun h => existsb (fun q => is_none (tr crs geo_crs (px q) (py q) (h (pz q)))) qs) &&
+                  err_agrees oe (fun h => existsb (back_refusedb crs h) qs) &&
                   (if oe then true else forall2b (back_elem_ok crs) qs ol) in
-                (* altitude carried bit for bit *)
-                let alts := oe || forall2b (fun q g => feqb_bits (palt g) (pz q)) qs ol in
-                (* the only recorded way to lose it: NewPoint refused the coordinates and the code did not look *)
-                let over := forall2b (fun q g => feqb_bits (palt g) (pz q) || back_overshoot tr crs q) qs ol in
-                let prop := order && alts in
-                let cls := if corr && order && negb alts && over then "lat_limit_overshoot" else "-" in
-                mkv corr prop cls (res_val of_gpoint m)
+                let alts := if oe then true else forall2b (fun q g => feqb_bits (palt g) (pz q)) qs ol in
+                mkv corr (order && alts) "-" (res_val of_gpoint m)
           | _, _ => bad_case
           end
       | _ => bad_case
       end.
 
     (* ---- ProjectRoundTrip(points): through consts.OrthCrs and back; observed [GeoCrs; OrthCrs; forward result; backward result] ---- *)
+    Definition alt_excuse (p : point) : pstat := if alt_nonzero (palt p) && rt_ok_at_0 p then PAlt else PBad.
     Definition rt_stat (p : point) (qg : ppoint * point) : pstat :=
       let '(q, g) := qg in
-      if check_fwd_xy yref p q && check_back p g then POk
-      else if back_overshoot tr orth_crs q then POver
-      else if alt_nonzero (palt p) && rt_ok_at_0 p then PAlt else PBad.
+      if check_fwd_xy yref p q && check_back p g then POk else alt_excuse p.
+    (* when the way back ended in an error: which points are to blame. A refused image is a failed round trip of its point; the points
+       the code never reached are judged on what the transform would have returned for them. *)
+    Definition rt_stat_refused (p : point) (q : ppoint) : pstat :=
+      match back_point tr orth_crs q with
+      | Some g => if check_fwd_xy yref p q && check_back p g then POk else alt_excuse p
+      | None => alt_excuse p
+      end.
     Definition d_round_trip (args : list val) (obs : val) : verdict :=
       match args, obs with
       | [pl], VL [VZ cg; VZ co; fo; bo] =>
           match dec_list as_gpoint pl, obs_list as_ppoint fo, obs_list as_gpoint bo with
           | Some ps, Some f, Some b =>
-              let m := round_trip tr ps orth_crs in
+              let m := round_trip epsg_known tr ps orth_crs in
               let consts_ok := (cg =? geo_crs)%Z && (co =? orth_crs)%Z in
               let corr := consts_ok && corr_res ppoint_eqb (fst m) f && corr_res point_eqb (snd m) b in
-              let shape := consts_ok && negb (snd f) && negb (snd b) &&
-                           (length (fst f) =? length ps)%nat && (length (fst b) =? length ps)%nat in
-              let st := if shape then worst (map2 rt_stat ps (combine (fst f) (fst b))) else PBad in
+              let fwd_shape := consts_ok && negb (snd f) && (length (fst f) =? length ps)%nat in
+              let shape := fwd_shape && negb (snd b) && (length (fst b) =? length ps)%nat in
+              (* every valid point must come back: an error on the way back is a failed round trip *)
+              let st := if shape then worst (map2 rt_stat ps (combine (fst f) (fst b)))
+                        else if fwd_shape && snd b then
+                               match worst (map2 rt_stat_refused ps (fst f)) with POk => PBad | s => s end
+                             else PBad in
               let prop := shape && match st with POk => true | _ => false end in
-              let cls := if corr && shape then match st with POver => "lat_limit_overshoot" | PAlt => "alt_fed_to_datum" | _ => "-" end
-                         else "-" in
+              let cls := if corr && fwd_shape then match st with PAlt => "alt_fed_to_datum" | _ => "-" end else "-" in
               mkv corr prop cls (VL [VZ geo_crs; VZ orth_crs; res_val of_ppoint (fst m); res_val of_gpoint (snd m)])
           | _, _, _ => bad_case
           end
